@@ -80,8 +80,13 @@ def main():
     import gen_facts
     with vlib.Lock("gen"):
         try:
-            # the driver imports Gen.Caches, so that one is always regenerated
-            gen_facts.generate(sorted(set(["caches"] + list(P.get("gen", [])))), libs["plain"][0])
+            # the driver imports Gen.Caches and Gen.CSrc, so these are always regenerated
+            gres = gen_facts.generate(sorted(set(["caches", "csrc"] + list(P.get("gen", [])))), libs["plain"][0])
+            uns = (gres.get("csrc") or {}).get("unsupported") or {}
+            if uns and "csrc" in P.get("gen", []):
+                # the source uses a construct outside the translated subset: the translator-based tie is broken for
+                # the properties that own it (the functions become stub terms, so their theorems fail as well)
+                gen_err = "c2lean: not translated: " + "; ".join(f"{k}: {v[:200]}" for k, v in uns.items())
         except Exception as e:  # extraction itself failed: the tie is broken
             gen_err = f"{type(e).__name__}: {e}"
     ok_model, log_model = vlib.lake_build(["Spq", "spqdriver"])
